@@ -1,10 +1,11 @@
 #!/bin/bash
 # usage: tools/run_all.sh quick|thorough   runs every claimed check in turn, prints one line per check
-cd /verif || exit 2
+cd "$(dirname "$0")/.." || exit 2
 T=${1:-quick}; bad=0
 for id in $(python3 -c "import json;print(' '.join(c['property_id'] for c in json.load(open('MANIFEST.json'))['checks']))"); do
   t0=$(date +%s); out=$(./check $id $T 2>&1); code=$?; t1=$(date +%s)
   echo "$id exit=$code $((t1-t0))s known=$(echo "$out" | grep -c '^KNOWN-FINDING') :: $(echo "$out" | grep '^# [0-9]' | cut -c1-150)"
+  if [ "$T" = thorough ]; then mkdir -p evidence-thorough; cp evidence/$id.json evidence-thorough/$id.json; fi
   [ $code -eq 0 ] || { bad=1; echo "$out" | grep -E "^VIOLATION|^  rule|HARNESS" | head -5; }
 done
 exit $bad
